@@ -23,6 +23,12 @@ CLAIMED["C06"] = dict(
    text="Associativity, identity and right bias are checked on generated triples over the full attribute x colour x link space; parse(str(s)) and parse(normalize(str(s))) on generated styles; each documented spelling against the keyword-built style; eq=>hash and dict lookup over all pairs of construction routes of one style. The space is unbounded (colours, links), so exploration is the honest level.",
    note="Links non-empty and whitespace-free, rgb() without spaces, lower-case spellings from docs/source/style.rst; colour names are ignored by the field-wise view but not by ==.",
    ref="5 C06")
+CLAIMED["C04"] = dict(
+   technique="exhaustive enumeration of all strings over an 11-symbol markup alphabet (escape round trip, standalone and embedded) + Hypothesis tag-event documents against a reference tag-stack interpreter",
+   level="exploration",
+   text="escape(): every string up to length 6 (quick) / 7 (thorough) over the alphabet the property names is enumerated (that part is exhaustive) and longer strings over a wider alphabet are generated; styling: generated documents of open/close/close-any/text events are interpreted by an independent stack model (precedence by opening order, normalised closing names, MarkupError exactly when nothing matches) and compared per character with the rendered Text.",
+   note="emoji=False for the escape round trip; embedded form under the statement's side condition; tag set fixed to 15 tags covering aliases, word order, negation, link=, hex colours and a non-style name.",
+   ref="5 C04")
 NOT_YET = {}
 props = [json.loads(l) for l in open(os.path.join(V, "properties.jsonl"))]
 checks = []
